@@ -767,6 +767,24 @@ fn other_cases(d: Dialect) -> Vec<(String, Result<String, String>, Option<PStmt>
         }
     }
     v.push(("create-foreign-key unnamed".into(), render!(d, ForeignKey::create().from(a("t"), a("a")).to(a("p"), a("x")).on_delete(ForeignKeyAction::Cascade)), Some(PStmt::AlterTable { name: t(), actions: vec![PAlter::AddForeignKey(PFk { name: None, cols: vec!["a".into()], ref_table: vec!["p".into()], ref_cols: vec!["x".into()], on_delete: Some("CASCADE".into()), on_update: None })] })));
+    v.push((
+        "create-table two unnamed foreign keys".into(),
+        render!(d, Table::create().table(a("t")).col(ColumnDef::new(a("a")).integer()).col(ColumnDef::new(a("b")).integer()).foreign_key(ForeignKey::create().from(a("t"), a("a")).to(a("p"), a("x"))).foreign_key(ForeignKey::create().from(a("t"), a("b")).to(a("q"), a("y")).on_delete(ForeignKeyAction::Cascade))),
+        Some(PStmt::CreateTable(PCreateTable {
+            temporary: false,
+            if_not_exists: false,
+            name: t(),
+            cols: vec![
+                PCol { name: "a".into(), ty: Some(PType { name: if pg { "INTEGER".into() } else { "INT".into() }, ..Default::default() }), specs: vec![] },
+                PCol { name: "b".into(), ty: Some(PType { name: if pg { "INTEGER".into() } else { "INT".into() }, ..Default::default() }), specs: vec![] },
+            ],
+            elems: vec![
+                PElem::ForeignKey(PFk { name: None, cols: vec!["a".into()], ref_table: vec!["p".into()], ref_cols: vec!["x".into()], on_delete: None, on_update: None }),
+                PElem::ForeignKey(PFk { name: None, cols: vec!["b".into()], ref_table: vec!["q".into()], ref_cols: vec!["y".into()], on_delete: Some("CASCADE".into()), on_update: None }),
+            ],
+            options: vec![],
+        })),
+    ));
     v.push(("drop-foreign-key".into(), render!(d, ForeignKey::drop().name("fk").table(a("t"))), Some(PStmt::AlterTable { name: t(), actions: vec![if pg { PAlter::DropConstraint("fk".into()) } else { PAlter::DropForeignKey("fk".into()) }] })));
     // rename / drop / truncate
     v.push(("rename-table".into(), render!(d, Table::rename().table(a("t"), a("u"))), Some(PStmt::RenameTable { from: t(), to: vec!["u".into()] })));
